@@ -107,9 +107,13 @@ func (f Function) TargetName() string {
 func (f Function) ExecCode() string {
 	name := f.Name
 	if f.Receiver != "" {
-		name = f.Receiver + "{}." + name
-	}
-	if f.Package != "" {
+		recv := f.Receiver
+		if f.Package != "" {
+			recv = f.Package + "." + recv
+		}
+		// taking the address makes the call valid for pointer receivers, too
+		name = "(&" + recv + "{})." + name
+	} else if f.Package != "" {
 		name = f.Package + "." + name
 	}
 
